@@ -458,7 +458,8 @@ class SumProductUnify(FunctionContract):
 
 def units():
     return [FunctionUnit(MapCall()), FunctionUnit(ModuloIdentity()),
-            FunctionUnit(SumProductUnify("map_sum", 0)), FunctionUnit(SumProductUnify("map_product", 1))]
+            FunctionUnit(SumProductUnify("map_sum", 0)), FunctionUnit(SumProductUnify("map_product", 1))] \
+        + __import__("contracts.c17match", fromlist=["units"]).units()
 
 
 LEVEL = "proof"
@@ -470,7 +471,10 @@ TRUSTED_BASE = [
 ]
 ASSUMPTIONS = [
     "records are abstract (an uninterpreted sort with `unifies` and `extends`); 'same value for all values of the remaining variables and all interpretations of function symbols' is the meaning of `unifies`, not derived from a term model",
-    "match() (parsing, building the initial record from pre_match, picking records[0], ValueError when no record) is covered by the bounded stand-in: substitute back and evaluate at random rational points under random function tables",
+    "match() is under contract (contracts/c17match.py): candidates = declared free names (or all names of the template minus the bound ones), the unifier runs on "
+    "flatten(template) / flatten(expression) from nothing or from one record holding exactly the pre_match equations (names checked to be candidates), the result is "
+    "the equation set of a record the unifier returned, no record => ValueError; relative to A-UNIF for that top-level call and A-FLATTEN (pymbolic.flatten keeps the "
+    "value); parse() is external (C19)",
 ]
 EXPLANATION = ("_ExtendedUnifier.map_call is proved to return only records that unify the function symbols and every aligned argument pair "
                "(hence, by homomorphism, the calls) and that extend an input record; class, arity and keyword-name mismatches return no "
